@@ -16,3 +16,28 @@ Definition check1 (k : case1) : bool :=
   | IndexErr, IIndexErr => true
   | _, _ => false
   end.
+
+(* ---- N-d operators ---- *)
+From Verif Require Import Lib.Axis C13.ModelNd.
+Inductive opk := OpPD (ax : nat) | OpGrad | OpDiv | OpLap.
+Record caseN := { n_op : opk; n_shape : list nat; n_m : meth; n_p : pmode; n_c : Q; n_dxs : list Q;
+                  n_x : list (list Q); n_out : list (list Q);
+                  n_linear : bool; n_y : list (list Q); n_adj : list (list Q) }.
+
+Definition hd0 (l : list (list Q)) : list Q := match l with a :: _ => a | [] => [] end.
+Definition checkN (k : caseN) : bool :=
+  let sh := n_shape k in let m := n_m k in let p := n_p k in let c := n_c k in let dxs := n_dxs k in
+  match n_op k with
+  | OpPD ax =>
+      Qssclose 0 tol (n_out k) [pderiv sh ax m p c (nth ax dxs 1) (hd0 (n_x k))]
+      && (negb (n_linear k) || Qssclose 0 tol (n_adj k) [pderiv_adjoint sh ax m p (nth ax dxs 1) (hd0 (n_y k))])
+  | OpGrad =>
+      Qssclose 0 tol (n_out k) (gradient sh m p c dxs (hd0 (n_x k)))
+      && (negb (n_linear k) || Qssclose 0 tol (n_adj k) [gradient_adjoint sh m p dxs (n_y k)])
+  | OpDiv =>
+      Qssclose 0 tol (n_out k) [divergence sh m p c dxs (n_x k)]
+      && (negb (n_linear k) || Qssclose 0 tol (n_adj k) (divergence_adjoint sh m p dxs (hd0 (n_y k))))
+  | OpLap =>
+      Qssclose 0 tol (n_out k) [laplacian sh p c dxs (hd0 (n_x k))]
+      && (negb (n_linear k) || Qssclose 0 tol (n_adj k) [laplacian_adjoint sh p dxs (hd0 (n_y k))])
+  end.
